@@ -90,7 +90,8 @@ Proof.
       - intro i. unfold scope_is_class, s0. cbn. destruct (Nat.eqb i builtins_id); auto. destruct (Nat.eqb i delayed_id); auto.
       - rewrite Hsd0. reflexivity.
       - reflexivity.
-      - intros i k e. rewrite Hsd0. destruct (Nat.eqb i 0). apply plain_dict_raw. intros []. }
+      - intros i k e. rewrite Hsd0. destruct (Nat.eqb i 0). apply plain_dict_raw. intros [].
+      - cbn. unfold builtins_id, delayed_id. repeat constructor; cbn; intuition discriminate. }
     split. reflexivity. split. reflexivity. split. reflexivity.
     split. constructor. intros []. constructor.
     split. intros i [<-|[]]. cbn. unfold builtins_id, delayed_id. lia.
